@@ -21,7 +21,9 @@ CLAIMS = {
         note="Trusted: Coq kernel; functional_extensionality_dep (stdlib axiom, bus-helper lemmas); translator /verif/gen + Lib/Machine.v (flat memory behind both buses = "
              "the property's 'whole address space mapped' assumption), validated every run by lockstep execution of the extracted models (ExtrOcamlBasic only) against both "
              "compiled interpreters on ~3x10^5 steps (quick) with full field/trace comparison; the Go lockstep falsifier compares the two real interpreters directly. "
-             "Known limit: a behaviour-preserving restructuring of ONE interpreter that is not a conversion ends as no-failing-input-found (DESIGN, harmless rewrites).",
+             "The per-function snapshot equalities close by conversion, else by structured congruence (Props/SeqCong.v: extracted helpers, an if moved into an expression, reordered independent assignments, "
+             "guard clauses), else by pointwise case analysis. Known limit: the lemmas are equalities of FUNCTIONS over all of Z, so a rewrite of ONE interpreter that is an identity only for in-range "
+             "arguments / register values (bus address arithmetic spelt differently) ends as no-failing-input-found (DESIGN, harmless rewrites round 2).",
         tech=REGEN, ref="DESIGN.md 0 / C02 as built"),
     "C04": dict(
         text="Coq theorem per mapper, forall n < 2^24: right-inverse and class/page-offset clauses, proved by exhaustive enumeration inside the kernel (all24_sound + VM cast) "
